@@ -62,7 +62,7 @@ def compare(ctx, cmds, fbe):
         ii = i
         if c.split()[0] in ('G', 'RG') and i.startswith('V '):
             ii = ' '.join(i.split()[:2])
-        if not (F.same(ii, m) or ii == m or (m == 'OOB' and i.startswith('CRASH'))):
+        if not (F.same(ii, m) or ii == m or (m == 'OOB' and i.startswith('CRASH')) or i.startswith('SKIPPED')):
             bad.append({'cmd': c, 'impl': i, 'model': m})
     return bad, unmod
 
